@@ -25,6 +25,9 @@ def plan(tier):
         I += ch_instances(f"rename[{S}x{L}]", 'c10_rename', [("perm", "int"), ("inplace", "bool"), ("n", "int"), ("w0", "int"), ("w1", "int"), ("w2", "int")],
                           ["0 <= perm < 8", f"0 <= n <= {3 if L == 2 else 2}", f"0 <= w0 < {L} and 0 <= w1 < {L} and 0 <= w2 < {L}"],
                           "B.c10_rename({t}, perm, [w0, w1, w2][:n], inplace, {S}, {L})", cfg, per_batch=6, timeout=90 if L == 2 else 150)
+    # parallel edges into a pruned vertex from a surviving one need three labels: all 729 tables (only the inplace flag is symbolic: cheap)
+    I += ch_instances("recurrent[2x3]", 'c10_recurrent', [("inplace", "bool")], ["True"],
+                      "B.c10_recurrent({t}, inplace, {S}, {L})", [dict(t=t, S=2, L=3) for t in tables(2, 3)], per_batch=40, timeout=30)
     for S, L in ([(2, 2)] if q else [(2, 2), (3, 2)]):
         T = tables(S, L)
         if (S, L) != (2, 2):
@@ -42,7 +45,7 @@ def plan(tier):
                      "reference model (table walk, reference language, greatest fixpoint of 'has in- and out-edge', breadth-first distances).  "
                      "'Confirmed over all paths' = CrossHair exhausted the symbolic arguments for that table; a counterexample is replayed in plain Python"),
         bounds=dict(automata="all 81 tables with 2 states x 2 labels (quick); thorough adds spread samples of 240 (walk/enumerate/multiple/rename) or 600 "
-                             "(recurrent/shortest) tables with 3 states x 2 labels and 2 states x 3 labels", words="length <= 4 (walk, multiple), <= 3 (enumerate, rename; rename over 3 labels: <= 2)",
+                             "(recurrent/shortest) tables with 3 states x 2 labels and 2 states x 3 labels; recurrent additionally over all 729 tables with 2 states x 3 labels in both tiers", words="length <= 4 (walk, multiple), <= 3 (enumerate, rename; rename over 3 labels: <= 2)",
                     k="1..3", relabellings="all permutations of the alphabet, a shift and fresh letters; in place and not"),
         outside=["automata with more than 3 states / 3 labels", "words longer than 4", "random large automata", "built-in automata (covered as concrete tables in C07's engine for Coxeter groups only)"],
         assumptions=["deterministic automata given as label->target tables over integer states"],
